@@ -1,7 +1,8 @@
 """C19 - client spec bunching preserves order and limits.
 
-Target: hailtop.batch_client.aioclient.Batch._create_bunches (+ SpecBytes.__init__ / SpecBytes.n_bytes, and the
-filters in _submit_job_group_bunches / _submit_job_bunches).
+Target: hailtop.batch_client.aioclient.Batch._create_bunches (+ class SpecBytes: real __init__ then real n_bytes getter, the
+filters in _submit_job_group_bunches / _submit_job_bunches, and the call site Batch._submit / Batch.submit: every sender gets
+the bunches THIS call computed with THIS call's limits).
 
 Top-level postcondition, from the property text, stated over boundaries (ghost array st, ghost count m):
   the result has m bunches; 0 = st[0] < st[1] < ... < st[m] = n where n = #job_group_specs + #job_specs;
@@ -12,6 +13,7 @@ Top-level postcondition, from the property text, stated over boundaries (ghost a
 from __future__ import annotations
 
 import ast
+import json
 
 import z3
 
@@ -119,6 +121,48 @@ def contract():
     )
 
 
+def open_bunch_contract():
+    """The same real function once more, with the part of the loop invariant that needs no quantifier stated on its own:
+    the OPEN bunch (the one specs are still being added to) is within both limits after every iteration, whatever the sizes
+    of the specs are (attr_n_bytes is left uninterpreted: no axiom about P / W is in scope here).  It is implied by
+    `current-limits` above; it is stated separately because its verification conditions are quantifier-free, so that a loop
+    body that lets a spec into the open bunch without comparing it against the byte limit is REFUTED with a counter-model
+    in milliseconds instead of ending in `unknown` under the quantified prefix-sum axioms."""
+    return Contract(
+        path=PATH,
+        qualname='Batch._create_bunches',
+        label='Batch._create_bunches[open-bunch-limits]',
+        types={
+            'self': 'U',
+            'job_group_specs': 'List[U]',
+            'job_specs': 'List[U]',
+            'max_bunch_bytesize': 'int',
+            'max_bunch_size': 'int',
+            'byte_specs_bunches': 'List[List[U]]',
+            'bunch': 'List[U]',
+            'result': 'List[List[U]]',
+            '.n_bytes': 'int',
+            '.spec_bytes': 'U',
+            '.typ': 'U',
+        },
+        calls={'SpecBytes': _mk_specbytes, 'orjson.dumps': _dumps},
+        loops={
+            0: LoopSpec(
+                index='k',
+                invariants=[
+                    ('open-bunch-within-count-limit', "len(bunch) <= max_bunch_size"),
+                    ('open-bunch-within-byte-limit', "bunch_n_bytes <= max_bunch_bytesize"),
+                    ('limits-positive', "max_bunch_bytesize > 0 and max_bunch_size > 0"),
+                ],
+            )
+        },
+        # when the function may refuse an input is the business of the main contract (it needs W); here every refusal is allowed
+        raises={'AssertionError': True},
+        ensures=[('limits-unchanged', "max_bunch_bytesize == old(max_bunch_bytesize) and max_bunch_size == old(max_bunch_size)")],
+        canaries=[('no-bunch-at-all', "len(result) == 0")],  # over the result only: must stay evaluable at every return of a changed body
+    )
+
+
 def specbytes_contracts():
     init = Contract(
         path=PATH,
@@ -126,14 +170,155 @@ def specbytes_contracts():
         types={'spec_bytes': 'U', 'typ': 'U'},
         ensures=[('fields-are-the-arguments', "self.spec_bytes == spec_bytes and self.typ == typ")],
     )
-    nb = Contract(
-        path=PATH,
-        qualname='SpecBytes.n_bytes',
-        self_fields={'spec_bytes': 'U', 'typ': 'U'},
-        ensures=[('n_bytes-is-len-of-spec_bytes', "result == len(self.spec_bytes)")],
-        spec_funcs={'len_U': (['U'], 'int')},
-    )
-    return [init, nb]
+    return [init]
+
+
+SPECBYTES_REPLAY = r'''
+import sys, json, os, ast, enum, typing
+src = open(os.path.join(os.environ['VERIF_REPO'], 'hail/python/hailtop/batch_client/aioclient.py')).read()
+tree = ast.parse(src)
+keep = [n for n in tree.body if isinstance(n, ast.ClassDef) and n.name in ('SpecType', 'SpecBytes')]
+ns = {k: getattr(typing, k) for k in typing.__all__}
+ns.update({'Enum': enum.Enum, '__name__': 'replay'})
+exec(compile(ast.Module(body=keep, type_ignores=[]), 'aioclient-extract', 'exec'), ns)
+SpecBytes = ns['SpecBytes']; SpecType = ns['SpecType']
+# what orjson.dumps puts on the wire is UTF-8 JSON text with non-ASCII characters NOT escaped
+samples = ['{}', '{"name":"abc"}', '{"name":"Zo\u00eb"}', '{"name":"\u60a3\u8005"}', '{"name":"\U0001f9ec"}', '']
+res = {'confirmed': False, 'tried': len(samples)}
+for text in samples:
+    wire = text.encode('utf-8')
+    for typ in (SpecType.JOB_GROUP, SpecType.JOB):
+        s = SpecBytes(wire, typ)
+        probs = []
+        if s.spec_bytes != wire: probs.append('spec_bytes is not the constructor argument')
+        if s.typ is not typ: probs.append('typ is not the constructor argument')
+        nb = s.n_bytes
+        if nb != len(wire): probs.append('n_bytes == %r but %d bytes go on the wire' % (nb, len(wire)))
+        if s.n_bytes != nb: probs.append('n_bytes changes between reads')
+        if s.spec_bytes != wire: probs.append('reading n_bytes changed spec_bytes')
+        if probs and not res['confirmed']:
+            res = {'confirmed': True, 'what': '; '.join(probs), 'input': {'spec_bytes_utf8': text, 'n_wire_bytes': len(wire), 'typ': typ.name}}
+print(json.dumps(res))
+'''
+
+
+def specbytes_class(ctx):
+    """class SpecBytes under contract, as the composition that `_create_bunches` relies on (axiom 1 of AXIOMS): for EVERY
+    spec_bytes b and typ t, the object that the REAL `SpecBytes.__init__(b, t)` leaves behind has `.spec_bytes == b`,
+    `.typ == t` and its REAL `n_bytes` getter yields len(b) - the number of BYTES of what goes on the wire - on the first and
+    on any later read, without changing spec_bytes / typ.  The constructor and the getter are executed symbolically by
+    vc/pyclass.Inliner; every other @property of the class that the getter touches is executed the same way (discovered from
+    the class body on every run, nothing about them is modelled by hand).  `bytes.decode` is the only library call given a
+    meaning: an uninterpreted text whose length (characters) is between 0 and the number of bytes - UTF-8 needs one to four
+    bytes per character - and NOT equal to it.
+    Frame (scan): no statement of the module outside class SpecBytes assigns a field of a SpecBytes object."""
+    from vc.pyclass import ClassIndex, Inliner
+
+    cx = ClassIndex([PATH])
+    if 'SpecBytes' not in cx.classes:
+        raise core.Undecided('anchor-moved: class SpecBytes not found in %s' % PATH)
+    cnode = cx.classes['SpecBytes']
+    props = [n.name for n in cnode.body if isinstance(n, ast.FunctionDef) and any(ast.unparse(d) in ('property', 'functools.cached_property', 'cached_property') for d in n.decorator_list)]
+    ctx.add(core.decided('SpecBytes/n_bytes-is-a-property', 'n_bytes' in props, 'properties of SpecBytes: %s' % props, kind='scan'))
+    len_u = z3.Function('len_U', pyvc.U, z3.IntSort())
+    dec = z3.Function('decode_utf8', pyvc.U, pyvc.U)
+
+    def decode_model(eng, st, args, kw, node):
+        b = to_z3(args[0], 'U')
+        st.assume(z3.And(len_u(dec(b)) >= 0, len_u(dec(b)) <= len_u(b)))
+        return dec(b)
+
+    calls = {'.decode': decode_model}
+    inl = Inliner(ctx, cx, calls=calls)
+    for name in props:
+        calls['property:' + name] = (lambda nm: lambda eng, st, args, kw, node: _prop(inl, nm, st, args[0], node))(name)
+    inl.extra_calls = calls
+    b = z3.Const('specbytes_b', pyvc.U)
+    t = z3.Const('specbytes_t', pyvc.U)
+    base_pc = [len_u(b) >= 0]
+
+    def replay(model, obl):
+        return core.run_native(SPECBYTES_REPLAY, {})
+
+    def oblige(name, pc, goal):
+        ctx.add(core.valid('SpecBytes/%s' % name, list(pc), goal), replay=replay)
+
+    ctor = inl.run_ctor('SpecBytes', [b, t], pc=base_pc, label='SpecBytes.__init__[class]')
+    ctx.under_contract(PATH, 'SpecBytes.__init__')
+    ctx.under_contract(PATH, 'SpecBytes.n_bytes')
+    reach = []
+    n = 0
+    for kind, rec, s1 in ctor:
+        n += 1
+        tag = '' if n == 1 else '#%d' % n
+        oblige('ctor/does-not-raise' + tag, s1.pc, z3.BoolVal(kind == 'value'))
+        if kind != 'value':
+            continue
+        for f, want in (('spec_bytes', b), ('typ', t)):
+            has = isinstance(rec, pyvc.SRecord) and f in rec.fields
+            oblige('ctor/field-%s-is-the-argument%s' % (f, tag), s1.pc, _same_u(rec.fields[f], want) if has else z3.BoolVal(False))
+        # first read of n_bytes, then a second read on the object as the first read left it (a getter may cache)
+        cur = [(rec, list(s1.pc))]
+        for read in ('first-read', 'second-read'):
+            nxt = []
+            for r0, pc0 in cur:
+                for k2, val, s2 in inl.run_method(r0, 'n_bytes', pc=pc0, label='SpecBytes.n_bytes[%s]#%d' % (read, len(nxt))):
+                    m = len(nxt)
+                    tg = tag + ('' if m == 0 else '.%d' % (m + 1))
+                    oblige('n_bytes/%s/does-not-raise%s' % (read, tg), s2.pc, z3.BoolVal(k2 == 'value'))
+                    if k2 != 'value':
+                        continue
+                    ok = isinstance(val, (int, z3.ExprRef)) and not isinstance(val, bool)
+                    oblige('n_bytes/%s/is-the-byte-length-of-what-goes-on-the-wire%s' % (read, tg), s2.pc, (to_z3(val, 'int') == len_u(b)) if ok and (isinstance(val, int) or val.sort() == z3.IntSort()) else z3.BoolVal(False))
+                    r2 = s2.env['self']
+                    for f, want in (('spec_bytes', b), ('typ', t)):
+                        has = isinstance(r2, pyvc.SRecord) and f in r2.fields
+                        oblige('n_bytes/%s/leaves-%s-alone%s' % (read, f, tg), s2.pc, _same_u(r2.fields[f], want) if has else z3.BoolVal(False))
+                    nxt.append((r2, list(s2.pc)))
+                    if read == 'second-read':
+                        reach.append(z3.And(*s2.pc))
+            cur = nxt
+    ctx.add(core.satisfiable('SpecBytes/vacuity/construct-then-read-n_bytes-twice-reachable', z3.Or(*reach) if reach else z3.BoolVal(False)))
+    # canary: the same pipeline must refute "n_bytes is always 0"
+    ctx.add(core.satisfiable('SpecBytes/canary/n_bytes-always-zero', z3.And(*(base_pc + [len_u(b) != 0])), kind='canary'))
+    # frame: fields of SpecBytes objects are written by the class itself only
+    tree = ast.parse(core.read_repo(PATH))
+    fields = set()
+    for kind, rec, s1 in ctor:
+        if kind == 'value' and isinstance(rec, pyvc.SRecord):
+            fields.update(rec.fields)
+    inside = {id(x) for c_ in tree.body if isinstance(c_, ast.ClassDef) and c_.name == 'SpecBytes' for x in ast.walk(c_)}
+    writers = []
+    for x in ast.walk(tree):
+        if isinstance(x, ast.Attribute) and isinstance(x.ctx, (ast.Store, ast.Del)) and x.attr in fields and id(x) not in inside:
+            writers.append('L%d %s' % (x.lineno, ast.unparse(x)))
+        if isinstance(x, ast.Call) and _dotted_name(x.func) in ('setattr', 'object.__setattr__') and id(x) not in inside and len(x.args) >= 2 and isinstance(x.args[1], ast.Constant) and x.args[1].value in fields:
+            writers.append('L%d %s' % (x.lineno, ast.unparse(x)))
+    ctx.add(core.decided('SpecBytes/frame/fields-written-by-the-class-only', not writers, 'fields %s; writers outside the class: %s' % (sorted(fields), writers), kind='scan'))
+
+
+def _prop(inl, name, st, rec, node):
+    """read of a @property of a SpecBytes record: the real getter is executed on the record; when the getter has several outcomes
+    the engine re-executes the reading statement once per outcome (Fork) and the outcome decided for this node is handed back"""
+    if node is not None and id(node) in st.decided:
+        kind, payload = st.take_decided(node)
+        if kind == 'raise':
+            raise pyvc.PyRaise(payload)
+        return payload
+    if node is None:
+        raise core.Undecided('property %s read where no statement can be re-executed' % name)
+    return inl.call('SpecBytes', name, rec, [], {}, st, node)
+
+
+def _same_u(v, want):
+    return (v == want) if isinstance(v, z3.ExprRef) and v.sort() == pyvc.U else z3.BoolVal(False)
+
+
+def _dotted_name(node):
+    try:
+        return ast.unparse(node)
+    except Exception:
+        return None
 
 
 def _filters(ctx):
@@ -190,6 +375,158 @@ def _filters(ctx):
     ctx.add(core.decided('_submit/groups-submitted-before-jobs', ok, repr(calls), kind='scan'))
 
 
+def _submit_native():
+    import os
+    script = open(os.path.join(os.path.dirname(__file__), 'native', 'c19_submit_replay.py')).read()
+    return core.run_native(script, {}, timeout=300)
+
+
+def _bindings(fn, name):
+    """every statement / expression of fn that binds the local `name` (parameters are not bindings)"""
+    return [x for x in ast.walk(fn) if isinstance(x, ast.Name) and x.id == name and isinstance(x.ctx, (ast.Store, ast.Del))]
+
+
+def _call_args(call, callee):
+    """parameter name -> argument node of a `self.m(...)` call, by the REAL signature of m"""
+    names = [a.arg for a in callee.args.posonlyargs + callee.args.args][1:]
+    out = dict(zip(names, call.args))
+    for k in call.keywords:
+        if k.arg is not None:
+            out[k.arg] = k.value
+    if any(isinstance(a, ast.Starred) for a in call.args) or any(k.arg is None for k in call.keywords):
+        return None
+    return out
+
+
+def _submit_call_site(ctx):
+    """The clause of the property at the call site: every spec-carrying request of ONE `_submit(max_bunch_bytesize, max_bunch_size)`
+    is built from bunches that THIS call computed with THIS call's limits from the pending specs.  Decided by def-use on the
+    real AST of Batch._submit / Batch.submit (names of locals are irrelevant):
+      - senders = the methods of Batch with a parameter annotated with SpecBytes (discovered); every sender call in `_submit`
+        passes `v` or `v[<const>]` where the local v has exactly ONE binding in the whole function, a top-level
+        (unconditional) statement that precedes every sender call, whose value - through plain copies - is the call
+        `self._create_bunches(self._job_group_specs, self._job_specs, <p1>, <p2>)`;
+      - p1 / p2 are parameters of `_submit`, never rebound, and go to `_create_bunches`' max_bunch_bytesize / max_bunch_size;
+      - `submit` hands its own, never rebound, max_bunch_bytesize / max_bunch_size to those two parameters in every `_submit` call.
+    A failure is replayed by contracts/native/c19_submit_replay.py (real Batch, recording client, failed submit then retry with
+    other limits), which is also run as a BOUNDED stand-in on the unchanged tree."""
+    tree = ast.parse(core.read_repo(PATH))
+    cls = [n for n in tree.body if isinstance(n, ast.ClassDef) and n.name == 'Batch']
+    if not cls:
+        raise core.Undecided('anchor-moved: class Batch not found')
+    methods = {n.name: n for n in cls[0].body if isinstance(n, (ast.FunctionDef, ast.AsyncFunctionDef))}
+    for need in ('_submit', 'submit', '_create_bunches'):
+        if need not in methods:
+            raise core.Undecided('anchor-moved: Batch.%s not found' % need)
+    sub, top, cb = methods['_submit'], methods['submit'], methods['_create_bunches']
+    ctx.under_contract(PATH, 'Batch._submit')
+    ctx.under_contract(PATH, 'Batch.submit')
+    senders = {}
+    for name, m in methods.items():
+        if name == '_create_bunches':
+            continue
+        ps = [a.arg for a in m.args.posonlyargs + m.args.args + m.args.kwonlyargs if a.annotation is not None and 'SpecBytes' in ast.unparse(a.annotation)]
+        if ps:
+            senders[name] = ps
+    params = [a.arg for a in sub.args.posonlyargs + sub.args.args + sub.args.kwonlyargs]
+    problems = []
+    seen = 0
+    limit_params = None
+
+    def origin(name, before, depth=0):
+        """the `_create_bunches` call that the local `name` stands for, or a reason why not"""
+        bs = _bindings(sub, name)
+        if name in params:
+            return None, '%s is a parameter of _submit, not computed by this call' % name
+        if len(bs) != 1:
+            return None, 'local %s has %d bindings in _submit (exactly one expected)' % (name, len(bs))
+        stmt = [x for x in sub.body if isinstance(x, (ast.Assign, ast.AnnAssign)) and any(t is bs[0] for t in (x.targets if isinstance(x, ast.Assign) else [x.target]))]
+        if not stmt:
+            return None, 'the binding of %s (line %d) is not an unconditional top-level assignment of _submit' % (name, bs[0].lineno)
+        if stmt[0].end_lineno >= before:
+            return None, 'the binding of %s (line %d) does not precede the request at line %d' % (name, bs[0].lineno, before)
+        v = stmt[0].value
+        if isinstance(v, ast.Name) and depth < 8:
+            return origin(v.id, stmt[0].lineno, depth + 1)
+        if isinstance(v, ast.Call) and ast.unparse(v.func) == 'self._create_bunches':
+            return v, None
+        return None, '%s = %s (line %d) is not a call of self._create_bunches' % (name, ast.unparse(v)[:80] if v is not None else None, stmt[0].lineno)
+
+    for x in ast.walk(sub):
+        if not (isinstance(x, ast.Call) and isinstance(x.func, ast.Attribute) and isinstance(x.func.value, ast.Name) and x.func.value.id == 'self' and x.func.attr in senders):
+            continue
+        amap = _call_args(x, methods[x.func.attr])
+        if amap is None:
+            problems.append('line %d: star-arguments in %s' % (x.lineno, ast.unparse(x)[:80]))
+            continue
+        for pn in senders[x.func.attr]:
+            seen += 1
+            a = amap.get(pn)
+            base = a.value if isinstance(a, ast.Subscript) and isinstance(a.slice, ast.Constant) else a
+            if not isinstance(base, ast.Name):
+                problems.append('line %d: %s gets %s, not a local computed by this call' % (x.lineno, x.func.attr, ast.unparse(a) if a is not None else None))
+                continue
+            call, why = origin(base.id, x.lineno)
+            if call is None:
+                problems.append('line %d: %s(%s): %s' % (x.lineno, x.func.attr, ast.unparse(a), why))
+                continue
+            cmap = _call_args(call, cb) or {}
+            got = {k: ast.unparse(v) for k, v in cmap.items()}
+            if got.get('job_group_specs') != 'self._job_group_specs' or got.get('job_specs') != 'self._job_specs':
+                problems.append('line %d: bunches are not computed from the pending specs: %s' % (call.lineno, got))
+            lp = (got.get('max_bunch_bytesize'), got.get('max_bunch_size'))
+            for q in lp:
+                if q not in params or _bindings(sub, q):
+                    problems.append('line %d: limit argument %s of _create_bunches is not an unmodified parameter of _submit' % (call.lineno, q))
+            if limit_params is None:
+                limit_params = lp
+            elif limit_params != lp:
+                problems.append('line %d: limits %s differ from %s' % (call.lineno, lp, limit_params))
+    # nothing else in _submit may reach the wire with specs: spec-carrying requests are made by the senders only
+    for x in ast.walk(sub):
+        if isinstance(x, ast.Attribute) and x.attr in ('_post', '_patch', '_submit_spec_bunch'):
+            problems.append('line %d: _submit talks to the server directly (%s)' % (x.lineno, ast.unparse(x)))
+    ok = not problems and seen > 0
+    o = core.decided('_submit/spec-requests-are-built-from-bunches-of-this-call-with-this-calls-limits', ok, '; '.join(problems) or '%d sender arguments traced to one _create_bunches call with limits %s' % (seen, limit_params,), kind='scan')
+    ctx.add(o)
+    # submit -> _submit: the caller's limits arrive unchanged
+    if limit_params is None:
+        # the tracing above failed: which parameters of _submit are the limits is still read off its _create_bunches call(s)
+        cands = set()
+        for x in ast.walk(sub):
+            if isinstance(x, ast.Call) and ast.unparse(x.func) == 'self._create_bunches':
+                got = {k: ast.unparse(v) for k, v in (_call_args(x, cb) or {}).items()}
+                cands.add((got.get('max_bunch_bytesize'), got.get('max_bunch_size')))
+        if len(cands) == 1 and all(q in params for q in list(cands)[0]):
+            limit_params = list(cands)[0]
+    problems2 = []
+    calls = [x for x in ast.walk(top) if isinstance(x, ast.Call) and ast.unparse(x.func) == 'self._submit']
+    tparams = [a.arg for a in top.args.posonlyargs + top.args.args + top.args.kwonlyargs]
+    for x in calls:
+        amap = _call_args(x, sub) or {}
+        for formal, actual in zip(limit_params or (None, None), ('max_bunch_bytesize', 'max_bunch_size')):
+            if formal not in params:
+                continue  # reported by the obligation above
+            a = amap.get(formal)
+            if not (isinstance(a, ast.Name) and a.id == actual and actual in tparams and not _bindings(top, actual)):
+                problems2.append('line %d: _submit parameter %s gets %s, not submit\'s unmodified %s' % (x.lineno, formal, ast.unparse(a) if a is not None else None, actual))
+    ok2 = bool(calls) and not problems2 and limit_params is not None
+    o2 = core.decided('submit/limits-of-the-call-reach-_submit-unchanged', ok2, '; '.join(problems2) or '%d calls' % len(calls), kind='scan')
+    ctx.add(o2)
+    if not (ok and ok2):
+        # replay on the real code: the obligations are decided on the AST; the failing input (if the scenarios reach one) goes into the evidence
+        r = _submit_native()
+        for ob in (o, o2):
+            if ob.status == 'failed':
+                ob.info['__replay__'] = r
+        ctx.extra['submit_native_replay'] = r
+    else:
+        r = _submit_native()
+        if 'error' in r:
+            raise core.CheckerBug('c19_submit_replay.py failed: %s' % (r.get('stderr') or r.get('error'))[-400:])
+        ctx.bounded_standin('submit-retry-scenarios', 'real Batch against a recording client: %s two-call scenarios (first call succeeds or is rejected on its first spec request, second call with other limits, 0..2 groups, 1..9 jobs, 4 limit pairs each)' % r.get('scenarios'), r.get('scenarios', 0), not r.get('confirmed'), json.dumps(r, default=str)[:600])
+
+
 def make_replayer(eng):
     def replay(model, obl):
         if model is None:
@@ -229,14 +566,20 @@ for n in tree.body:
 class _Orjson:
     @staticmethod
     def dumps(spec):
+        # exactly spec['n'] bytes on the wire; 'utf8' fills with two-byte characters (orjson emits raw UTF-8, so real specs
+        # with non-ASCII text have more bytes than characters)
+        if spec.get('fill') == 'utf8':
+            return ('\u00e9' * (spec['n'] // 2) + 'x' * (spec['n'] % 2)).encode('utf-8')
         return b'x' * spec['n']
-ns = {'Enum': enum.Enum, 'List': list, 'orjson': _Orjson, '__name__': 'replay'}
+import typing
+ns = {k: getattr(typing, k) for k in typing.__all__}
+ns.update({'Enum': enum.Enum, 'orjson': _Orjson, '__name__': 'replay'})
 exec(compile(ast.Module(body=keep, type_ignores=[]), 'aioclient-extract', 'exec'), ns)
 Batch = ns['Batch']; SpecType = ns['SpecType']
 def check(p):
-    sizes = p['sizes']; ng = p['n_groups']
-    groups = [{'n': s, 'i': i} for i, s in enumerate(sizes[:ng])]
-    jobs = [{'n': s, 'i': ng + i} for i, s in enumerate(sizes[ng:])]
+    sizes = p['sizes']; ng = p['n_groups']; fill = p.get('fill', 'ascii')
+    groups = [{'n': s, 'i': i, 'fill': fill} for i, s in enumerate(sizes[:ng])]
+    jobs = [{'n': s, 'i': ng + i, 'fill': fill} for i, s in enumerate(sizes[ng:])]
     try:
         bunches = Batch._create_bunches(None, groups, jobs, p['max_bytes'], p['max_size'])
     except AssertionError as e:
@@ -257,16 +600,20 @@ if p.get('search'):
     res = {'confirmed': False, 'searched': 0}
     n = 0
     done = False
-    for L in range(0, 5):
-        for sizes in itertools.product(range(0, 4), repeat=L):
-            for ng in range(0, L + 1):
-                for mb in (4, 5, 7):
-                    for ms in (1, 2, 3):
-                        n += 1
-                        q = {'n_groups': ng, 'sizes': list(sizes), 'max_bytes': mb, 'max_size': ms}
-                        r = check(q)
-                        if r['confirmed']:
-                            r['input'] = q; r['searched'] = n; res = r; done = True
+    # sizes include specs AT and ABOVE every byte limit tried (5 and 8 against 4, 5, 7): an oversized spec must be refused with
+    # the documented AssertionError wherever it stands, never packed; both fillings (bytes == characters, bytes > characters)
+    for fill in ('ascii', 'utf8'):
+        for L in range(0, 5):
+            for sizes in itertools.product((0, 1, 2, 3, 5, 8), repeat=L):
+                for ng in range(0, L + 1):
+                    for mb in (4, 5, 7):
+                        for ms in (1, 2, 3):
+                            n += 1
+                            q = {'n_groups': ng, 'sizes': list(sizes), 'max_bytes': mb, 'max_size': ms, 'fill': fill}
+                            r = check(q)
+                            if r['confirmed']:
+                                r['input'] = q; r['searched'] = n; res = r; done = True
+                            if done: break
                         if done: break
                     if done: break
                 if done: break
@@ -287,12 +634,19 @@ def native_witness(ctx):
 def build(ctx):
     for c in specbytes_contracts():
         pyvc.Engine(ctx, c).run()
+    specbytes_class(ctx)
     eng = pyvc.Engine(ctx, contract())
     eng.replayer = make_replayer(eng)
     eng.run()
+    eng2 = pyvc.Engine(ctx, open_bunch_contract())
+    eng2.replayer = make_replayer(eng2)
+    eng2.run()
     ctx.witness_search = lambda: core.run_native(REPLAY, {'search': True})
     _filters(ctx)
+    _submit_call_site(ctx)
     ctx.assume('orjson.dumps is an uninterpreted function of the spec (only the length of its result matters)')
     ctx.assume('class SpecBytes is modelled by a constructor UF whose axioms are exactly the postconditions proved for SpecBytes.__init__ and SpecBytes.n_bytes')
     ctx.assume('P and W are definitional spec functions (prefix sums of the byte sizes); their defining axioms are assumed, being a definition by recursion on naturals')
+    ctx.assume('bytes.decode(utf-8) is an uninterpreted text whose number of characters is between 0 and the number of bytes (SpecBytes class contract)')
+    ctx.assume('Batch._submit / Batch.submit: the call-site clause is decided by def-use on the AST (single unconditional binding, plain copies); aliasing through containers or attributes is rejected, not analysed')
     ctx.assume('meta-lemma L5: a list of adjacent slices [st[j], st[j+1]) with st[0]=0, st[m]=n concatenates to the original list')
